@@ -14,6 +14,7 @@ import (
 
 	"golang.org/x/sync/semaphore"
 
+	"github.com/ollama/ollama/llm"
 	"github.com/ollama/ollama/model"
 	"github.com/ollama/ollama/model/input"
 	"github.com/ollama/ollama/sample"
@@ -38,7 +39,12 @@ func VerifNewServer(m model.Model, parallel, batchSize, kvSize int, multiUser bo
 // kind: "" ok, "newseq" NewSequence failed, "busy" no free sequence entry (the handler would block on the
 // semaphore), "load" LoadCacheSlot failed.
 func (s *Server) VerifSubmit(prompt string, numPredict int, numKeep int32, stop []string) (idx int, seq *Sequence, kind string, err error) {
-	seq, err = s.NewSequence(prompt, nil, NewSequenceParams{
+	return s.VerifSubmitMM(prompt, nil, numPredict, numKeep, stop)
+}
+
+// VerifSubmitMM: the same with images ([img-<id>] tags in the prompt refer to them).
+func (s *Server) VerifSubmitMM(prompt string, images []llm.ImageData, numPredict int, numKeep int32, stop []string) (idx int, seq *Sequence, kind string, err error) {
+	seq, err = s.NewSequence(prompt, images, NewSequenceParams{
 		numPredict: numPredict,
 		stop:       stop,
 		numKeep:    numKeep,
@@ -121,7 +127,12 @@ type VerifState struct {
 func toks(in []input.Input) []int32 {
 	out := make([]int32, 0, len(in))
 	for _, x := range in {
-		out = append(out, x.Token)
+		// a multimodal input of the scripted model carries its content as an int32 code (>= 1000)
+		if v, ok := x.Multimodal.(int32); ok {
+			out = append(out, v)
+		} else {
+			out = append(out, x.Token)
+		}
 	}
 	return out
 }
